@@ -31,6 +31,7 @@ type runeScanner struct {
 	err    error
 	reads  int
 	hit    bool
+	hi     int // high-water mark: bytes inspected (len+1 once the end of input has been seen)
 }
 
 func (r *runeScanner) ReadRune() (rune, int, error) {
@@ -41,12 +42,16 @@ func (r *runeScanner) ReadRune() (rune, int, error) {
 	}
 	if r.off >= len(r.s) {
 		r.prev = -1
+		r.hi = len(r.s) + 1
 		return 0, 0, io.EOF
 	}
 	c, w := utf8.DecodeRuneInString(r.s[r.off:])
 	r.prev = r.off
 	r.off += w
 	r.n++
+	if r.off > r.hi {
+		r.hi = r.off
+	}
 	return c, w, nil
 }
 
